@@ -345,9 +345,9 @@ const NOTHING: Out = Out {
 const DROP: u8 = 0;
 const SKIP: u8 = 1;
 
-/// skip_rr (PEEK = false) or peek_rr + field accessors + {drop, skip} on the
+/// skip_rr (`peek` false) or peek_rr + field accessors + {drop, skip} on the
 /// record at `r`'s read position, against the reference.
-fn skip_or_peek_at<const PEEK: bool, const THEN: u8>(msg: &[u8], r: &mut Reader) -> Out {
+fn skip_or_peek_at(peek: bool, then: u8, msg: &[u8], r: &mut Reader) -> Out {
     let len = msg.len();
     let at = r.message_to_cursor().len();
     let fc = ref_first_chunk(msg, at);
@@ -363,7 +363,7 @@ fn skip_or_peek_at<const PEEK: bool, const THEN: u8>(msg: &[u8], r: &mut Reader)
         out.has_rdata = f.rdlen > 0;
         out.ttl_hi = f.ttl_raw >= 0x8000_0000;
     }
-    let ok = if !PEEK {
+    let ok = if !peek {
         r.skip_rr().is_ok()
     } else {
         match r.peek_rr() {
@@ -378,7 +378,7 @@ fn skip_or_peek_at<const PEEK: bool, const THEN: u8>(msg: &[u8], r: &mut Reader)
                     }
                     None => {}
                 }
-                if THEN == SKIP {
+                if then == SKIP {
                     p.skip();
                 } else {
                     drop(p);
@@ -391,7 +391,7 @@ fn skip_or_peek_at<const PEEK: bool, const THEN: u8>(msg: &[u8], r: &mut Reader)
     let after = r.message_to_cursor().len();
     match (ok, e) {
         (true, Some(f)) => {
-            if PEEK && THEN == DROP {
+            if peek && then == DROP {
                 assert!(after == at, "[C15] dropping a PeekRr leaves the read position unchanged");
             } else {
                 assert!(after == f.end, "[C15] skipping a record advances by exactly the record's length");
@@ -404,13 +404,13 @@ fn skip_or_peek_at<const PEEK: bool, const THEN: u8>(msg: &[u8], r: &mut Reader)
     out
 }
 
-fn rr_any<const NMAX: usize, const PEEK: bool, const THEN: u8>() {
+fn rr_any<const NMAX: usize>(peek: bool, then: u8) {
     let buf: [u8; NMAX] = kani::any();
     let len: usize = kani::any();
     kani::assume(len >= 12 && len <= NMAX);
     let msg = &buf[..len];
     let mut r = Reader::try_from(msg).unwrap();
-    let o = skip_or_peek_at::<PEEK, THEN>(msg, &mut r);
+    let o = skip_or_peek_at(peek, then, msg, &mut r);
     kani::cover!(
         o.ok && o.to_eom && o.has_rdata && o.ttl_hi && msg[12] != 0,
         "record with a non-root owner, TTL bit 31 set and RDATA, ending exactly at the end of the message"
@@ -425,7 +425,7 @@ fn rr_any<const NMAX: usize, const PEEK: bool, const THEN: u8>() {
 #[kani::proof]
 #[kani::unwind(18)]
 fn c15_skip_rr_any28() {
-    rr_any::<28, false, DROP>();
+    rr_any::<28>(false, DROP);
 }
 
 // @harness props=C15 panics=C15,C01 kani="--no-assertion-reach-checks" tier=quick mem=3 t=900
@@ -435,7 +435,7 @@ fn c15_skip_rr_any28() {
 #[kani::proof]
 #[kani::unwind(18)]
 fn c15_peek_rr_drop_any28() {
-    rr_any::<28, true, DROP>();
+    rr_any::<28>(true, DROP);
 }
 
 // @harness props=C15 panics=C15,C01 kani="--no-assertion-reach-checks" tier=quick mem=3 t=900
@@ -445,7 +445,7 @@ fn c15_peek_rr_drop_any28() {
 #[kani::proof]
 #[kani::unwind(18)]
 fn c15_peek_rr_skip_any28() {
-    rr_any::<28, true, SKIP>();
+    rr_any::<28>(true, SKIP);
 }
 
 // @harness props=C15 panics=C15,C01 kani="--no-assertion-reach-checks" tier=thorough mem=4 t=1800 fn="Reader::skip_question"
@@ -463,7 +463,7 @@ fn c15_skip_question_any48() {
 #[kani::proof]
 #[kani::unwind(38)]
 fn c15_skip_rr_any48() {
-    rr_any::<48, false, DROP>();
+    rr_any::<48>(false, DROP);
 }
 
 // @harness props=C15 panics=C15,C01 kani="--no-assertion-reach-checks" tier=thorough mem=4 t=1800
@@ -473,7 +473,7 @@ fn c15_skip_rr_any48() {
 #[kani::proof]
 #[kani::unwind(38)]
 fn c15_peek_rr_skip_any48() {
-    rr_any::<48, true, SKIP>();
+    rr_any::<48>(true, SKIP);
 }
 
 /// skip_question, then two record operations, on every message: the read
@@ -495,9 +495,9 @@ fn seq_any<const NMAX: usize>() -> (bool, Out, Out, Out) {
         Some(end) => assert!(q && after == end, "[C15] skip_question advances by exactly the question's length"),
         None => assert!(!q && after == 12, "[C15] a failed skip_question leaves the read position unchanged"),
     }
-    let r1 = skip_or_peek_at::<true, SKIP>(msg, &mut r);
-    let r2 = skip_or_peek_at::<false, DROP>(msg, &mut r);
-    let r3 = skip_or_peek_at::<true, DROP>(msg, &mut r);
+    let r1 = skip_or_peek_at(true, SKIP, msg, &mut r);
+    let r2 = skip_or_peek_at(false, DROP, msg, &mut r);
+    let r3 = skip_or_peek_at(true, DROP, msg, &mut r);
     assert!(r.at_eom() == (r.message_to_cursor().len() == len), "[C15] at_eom iff the read position is the message length");
     (q, r1, r2, r3)
 }
@@ -604,8 +604,12 @@ fn rd_put(out: &mut [u8; NM_MAX], out_len: &mut usize, src: &[u8], from: usize, 
     true
 }
 
-/// RDATA layouts (the TYPE octets of a skeleton are concrete, so each harness
-/// instantiates exactly one).
+/// RDATA layouts (the TYPE octets of a skeleton are concrete; `layout` is
+/// always passed as a literal, so CBMC follows exactly one branch).
+///
+/// Operation and layout selectors are plain arguments, not const generics: the
+/// runner cannot parse a check id that contains `::<1, 4>` (space), and a
+/// failed assertion inside such a function would be reported as inconclusive.
 const L_OPAQUE: u8 = 0; // no structure known to anybody: RFC 3597 opaque
 const L_NAME: u8 = 1; // RFC 1035 3.3.11 etc.: exactly one domain name
 const L_MX: u8 = 2; // RFC 1035 3.3.9: 16-bit preference, one domain name
@@ -622,24 +626,24 @@ const RD_BORROWED: u8 = 2;
 /// name in it), RD_OWNED otherwise.  Names may be compressed (RFC 1035 4.1.4)
 /// and are handed out uncompressed; a name must end inside the RDATA, so it is
 /// decoded in the message cut off at the RDATA's end.
-fn ref_rdata<const LAYOUT: u8>(msg: &[u8], f: &Frame, out: &mut [u8; NM_MAX], out_len: &mut usize, used_ptr: &mut bool) -> u8 {
+fn ref_rdata(layout: u8, msg: &[u8], f: &Frame, out: &mut [u8; NM_MAX], out_len: &mut usize, used_ptr: &mut bool) -> u8 {
     let cut = &msg[..f.end];
-    if LAYOUT == L_OPAQUE || (LAYOUT == L_A && f.class != 1 && f.class != 3) {
+    if layout == L_OPAQUE || (layout == L_A && f.class != 1 && f.class != 3) {
         if !rd_put(out, out_len, msg, f.rd_at, f.rdlen) {
             return RD_INVALID;
         }
         RD_BORROWED
-    } else if LAYOUT == L_A && f.class == 1 {
+    } else if layout == L_A && f.class == 1 {
         if f.rdlen != 4 || !rd_put(out, out_len, msg, f.rd_at, 4) {
             return RD_INVALID;
         }
         RD_BORROWED
-    } else if LAYOUT == L_NAME {
+    } else if layout == L_NAME {
         match ref_name_into(cut, f.rd_at, out, out_len, used_ptr) {
             Some(fc) if fc == f.rdlen => RD_OWNED,
             _ => RD_INVALID,
         }
-    } else if LAYOUT == L_MX {
+    } else if layout == L_MX {
         if f.rdlen < 2 || !rd_put(out, out_len, msg, f.rd_at, 2) {
             return RD_INVALID;
         }
@@ -647,7 +651,7 @@ fn ref_rdata<const LAYOUT: u8>(msg: &[u8], f: &Frame, out: &mut [u8; NM_MAX], ou
             Some(fc) if 2 + fc == f.rdlen => RD_OWNED,
             _ => RD_INVALID,
         }
-    } else if LAYOUT == L_SOA {
+    } else if layout == L_SOA {
         let fc1 = match ref_name_into(cut, f.rd_at, out, out_len, used_ptr) {
             Some(fc) => fc,
             None => return RD_INVALID,
@@ -681,7 +685,7 @@ const PEEK_OWNER: u8 = 2;
 const PEEK_OWNER_PARSE: u8 = 3;
 
 /// One record-reading operation at `r`'s read position against the reference.
-fn read_rr_at<const OP: u8, const LAYOUT: u8>(msg: &[u8], r: &mut Reader) -> Out {
+fn read_rr_at(op: u8, layout: u8, msg: &[u8], r: &mut Reader) -> Out {
     let len = msg.len();
     let at = r.message_to_cursor().len();
     let mut out = NOTHING;
@@ -699,7 +703,7 @@ fn read_rr_at<const OP: u8, const LAYOUT: u8>(msg: &[u8], r: &mut Reader) -> Out
     let mut rd_len = 0usize;
     let mut rd_ptr = false;
     let erd = match ef {
-        Some(ref f) => ref_rdata::<LAYOUT>(msg, f, &mut rd, &mut rd_len, &mut rd_ptr),
+        Some(ref f) => ref_rdata(layout, msg, f, &mut rd, &mut rd_len, &mut rd_ptr),
         None => RD_INVALID,
     };
     // reference for the peeking stage: first chunk of the owner and the frame
@@ -708,13 +712,13 @@ fn read_rr_at<const OP: u8, const LAYOUT: u8>(msg: &[u8], r: &mut Reader) -> Out
         None => false,
     };
 
-    let got = if OP == READ {
+    let got = if op == READ {
         r.read_rr().ok()
     } else {
         match r.peek_rr() {
             Ok(mut p) => {
                 assert!(peekable, "[C15] peek_rr accepts a record that is not inside the message");
-                if OP == PEEK_OWNER || OP == PEEK_OWNER_PARSE {
+                if op == PEEK_OWNER || op == PEEK_OWNER_PARSE {
                     match (p.owner(), en) {
                         (Ok(name), Some(_)) => same_octets(name.wire_repr(), &ow, ow_len),
                         (Err(_), None) => {}
@@ -728,7 +732,7 @@ fn read_rr_at<const OP: u8, const LAYOUT: u8>(msg: &[u8], r: &mut Reader) -> Out
                         _ => assert!(false, "[C15] a repeated PeekRr::owner call changes its answer"),
                     }
                 }
-                if OP == PEEK_OWNER {
+                if op == PEEK_OWNER {
                     drop(p);
                     None
                 } else {
@@ -742,7 +746,7 @@ fn read_rr_at<const OP: u8, const LAYOUT: u8>(msg: &[u8], r: &mut Reader) -> Out
         }
     };
     let after = r.message_to_cursor().len();
-    if OP == PEEK_OWNER {
+    if op == PEEK_OWNER {
         assert!(after == at, "[C15] PeekRr::owner and dropping the PeekRr leave the read position unchanged");
         out.ok = peekable && en.is_some();
         out.name_ptr = ow_ptr;
@@ -786,9 +790,9 @@ fn read_rr_at<const OP: u8, const LAYOUT: u8>(msg: &[u8], r: &mut Reader) -> Out
     out
 }
 
-fn read_rr_cut<const OP: u8, const LAYOUT: u8>(msg: &[u8]) -> Out {
+fn read_rr_cut(op: u8, layout: u8, msg: &[u8]) -> Out {
     let mut r = Reader::try_from(msg).unwrap();
-    read_rr_at::<OP, LAYOUT>(msg, &mut r)
+    read_rr_at(op, layout, msg, &mut r)
 }
 
 // ---- questions ---------------------------------------------------------------
@@ -902,21 +906,21 @@ fn c15_read_rr_opaque_sk() {
     let h: [u8; 12] = kani::any();
     let d: [u8; 11] = kani::any();
     let b = opaque_msg!(h, d, 10u16, d[9], d[10]);
-    let o12 = read_rr_cut::<READ, L_OPAQUE>(&b[..12]);
-    read_rr_cut::<READ, L_OPAQUE>(&b[..13]);
-    read_rr_cut::<READ, L_OPAQUE>(&b[..14]);
-    read_rr_cut::<READ, L_OPAQUE>(&b[..15]);
-    read_rr_cut::<READ, L_OPAQUE>(&b[..16]);
-    read_rr_cut::<READ, L_OPAQUE>(&b[..17]);
-    read_rr_cut::<READ, L_OPAQUE>(&b[..18]);
-    read_rr_cut::<READ, L_OPAQUE>(&b[..19]);
-    read_rr_cut::<READ, L_OPAQUE>(&b[..20]);
-    let o21 = read_rr_cut::<READ, L_OPAQUE>(&b[..21]);
-    read_rr_cut::<READ, L_OPAQUE>(&b[..22]);
-    read_rr_cut::<READ, L_OPAQUE>(&b[..23]);
-    read_rr_cut::<READ, L_OPAQUE>(&b[..24]);
-    let o25 = read_rr_cut::<READ, L_OPAQUE>(&b[..25]);
-    let o26 = read_rr_cut::<READ, L_OPAQUE>(&b[..26]);
+    let o12 = read_rr_cut(READ, L_OPAQUE, &b[..12]);
+    read_rr_cut(READ, L_OPAQUE, &b[..13]);
+    read_rr_cut(READ, L_OPAQUE, &b[..14]);
+    read_rr_cut(READ, L_OPAQUE, &b[..15]);
+    read_rr_cut(READ, L_OPAQUE, &b[..16]);
+    read_rr_cut(READ, L_OPAQUE, &b[..17]);
+    read_rr_cut(READ, L_OPAQUE, &b[..18]);
+    read_rr_cut(READ, L_OPAQUE, &b[..19]);
+    read_rr_cut(READ, L_OPAQUE, &b[..20]);
+    let o21 = read_rr_cut(READ, L_OPAQUE, &b[..21]);
+    read_rr_cut(READ, L_OPAQUE, &b[..22]);
+    read_rr_cut(READ, L_OPAQUE, &b[..23]);
+    read_rr_cut(READ, L_OPAQUE, &b[..24]);
+    let o25 = read_rr_cut(READ, L_OPAQUE, &b[..25]);
+    let o26 = read_rr_cut(READ, L_OPAQUE, &b[..26]);
     kani::cover!(
         !o12.ok && !o12.late_err && o21.late_err && o25.late_err && o26.ok && o26.to_eom && o26.ttl_hi,
         "at the end: refused; owner within 8 octets of the end: refused; RDLENGTH past the end: refused; 3 RDATA octets and TTL bit 31 set: read"
@@ -937,20 +941,20 @@ fn c15_peek_parse_opaque_sk() {
     let h: [u8; 12] = kani::any();
     let d: [u8; 9] = kani::any();
     let b = opaque_msg!(h, d, 0xff00u16, 0, 3);
-    let o12 = read_rr_cut::<PEEK_PARSE, L_OPAQUE>(&b[..12]);
-    read_rr_cut::<PEEK_PARSE, L_OPAQUE>(&b[..13]);
-    read_rr_cut::<PEEK_PARSE, L_OPAQUE>(&b[..16]);
-    read_rr_cut::<PEEK_PARSE, L_OPAQUE>(&b[..20]);
-    let o21 = read_rr_cut::<PEEK_PARSE, L_OPAQUE>(&b[..21]);
-    read_rr_cut::<PEEK_PARSE, L_OPAQUE>(&b[..22]);
-    read_rr_cut::<PEEK_PARSE, L_OPAQUE>(&b[..23]);
-    let o25 = read_rr_cut::<PEEK_PARSE, L_OPAQUE>(&b[..25]);
-    let o26 = read_rr_cut::<PEEK_PARSE, L_OPAQUE>(&b[..26]);
-    let l0 = read_rr_cut::<PEEK_PARSE, L_OPAQUE>(&opaque_msg!(h, d, 0xff00u16, 0, 0));
-    let l1 = read_rr_cut::<PEEK_PARSE, L_OPAQUE>(&opaque_msg!(h, d, 0xff00u16, 0, 1));
-    let l2 = read_rr_cut::<PEEK_PARSE, L_OPAQUE>(&opaque_msg!(h, d, 0xff00u16, 0, 2));
-    let l4 = read_rr_cut::<PEEK_PARSE, L_OPAQUE>(&opaque_msg!(h, d, 0xff00u16, 0, 4));
-    let l259 = read_rr_cut::<PEEK_PARSE, L_OPAQUE>(&opaque_msg!(h, d, 0xff00u16, 1, 3));
+    let o12 = read_rr_cut(PEEK_PARSE, L_OPAQUE, &b[..12]);
+    read_rr_cut(PEEK_PARSE, L_OPAQUE, &b[..13]);
+    read_rr_cut(PEEK_PARSE, L_OPAQUE, &b[..16]);
+    read_rr_cut(PEEK_PARSE, L_OPAQUE, &b[..20]);
+    let o21 = read_rr_cut(PEEK_PARSE, L_OPAQUE, &b[..21]);
+    read_rr_cut(PEEK_PARSE, L_OPAQUE, &b[..22]);
+    read_rr_cut(PEEK_PARSE, L_OPAQUE, &b[..23]);
+    let o25 = read_rr_cut(PEEK_PARSE, L_OPAQUE, &b[..25]);
+    let o26 = read_rr_cut(PEEK_PARSE, L_OPAQUE, &b[..26]);
+    let l0 = read_rr_cut(PEEK_PARSE, L_OPAQUE, &opaque_msg!(h, d, 0xff00u16, 0, 0));
+    let l1 = read_rr_cut(PEEK_PARSE, L_OPAQUE, &opaque_msg!(h, d, 0xff00u16, 0, 1));
+    let l2 = read_rr_cut(PEEK_PARSE, L_OPAQUE, &opaque_msg!(h, d, 0xff00u16, 0, 2));
+    let l4 = read_rr_cut(PEEK_PARSE, L_OPAQUE, &opaque_msg!(h, d, 0xff00u16, 0, 4));
+    let l259 = read_rr_cut(PEEK_PARSE, L_OPAQUE, &opaque_msg!(h, d, 0xff00u16, 1, 3));
     kani::cover!(
         !o12.ok && !o12.late_err && o21.late_err && o25.late_err && o26.ok && o26.to_eom && o26.ttl_hi && l0.ok && !l0.has_rdata
             && l1.ok && l2.ok && !l2.to_eom && l4.late_err && l259.late_err,
@@ -979,24 +983,24 @@ macro_rules! ns_msg {
     };
 }
 
-fn ns_all<const OP: u8>() -> bool {
+fn ns_all(op: u8) -> bool {
     let h: [u8; 12] = kani::any();
     let d: [u8; 10] = kani::any();
     // the whole 31-octet message, RDLENGTH 0..=7 (7 reaches past the end)
-    let l0 = read_rr_cut::<OP, L_NAME>(&ns_msg!(h, d, 0));
-    let l1 = read_rr_cut::<OP, L_NAME>(&ns_msg!(h, d, 1));
-    let l2 = read_rr_cut::<OP, L_NAME>(&ns_msg!(h, d, 2));
-    let l3 = read_rr_cut::<OP, L_NAME>(&ns_msg!(h, d, 3));
-    let l4 = read_rr_cut::<OP, L_NAME>(&ns_msg!(h, d, 4));
-    let l5 = read_rr_cut::<OP, L_NAME>(&ns_msg!(h, d, 5));
-    let l6 = read_rr_cut::<OP, L_NAME>(&ns_msg!(h, d, 6));
-    let l7 = read_rr_cut::<OP, L_NAME>(&ns_msg!(h, d, 7));
+    let l0 = read_rr_cut(op, L_NAME, &ns_msg!(h, d, 0));
+    let l1 = read_rr_cut(op, L_NAME, &ns_msg!(h, d, 1));
+    let l2 = read_rr_cut(op, L_NAME, &ns_msg!(h, d, 2));
+    let l3 = read_rr_cut(op, L_NAME, &ns_msg!(h, d, 3));
+    let l4 = read_rr_cut(op, L_NAME, &ns_msg!(h, d, 4));
+    let l5 = read_rr_cut(op, L_NAME, &ns_msg!(h, d, 5));
+    let l6 = read_rr_cut(op, L_NAME, &ns_msg!(h, d, 6));
+    let l7 = read_rr_cut(op, L_NAME, &ns_msg!(h, d, 7));
     // RDLENGTH 4 (exactly the name), message cut inside the RDATA and right after it
     let b = ns_msg!(h, d, 4);
-    let c25 = read_rr_cut::<OP, L_NAME>(&b[..25]);
-    let c27 = read_rr_cut::<OP, L_NAME>(&b[..27]);
-    let c28 = read_rr_cut::<OP, L_NAME>(&b[..28]);
-    let c29 = read_rr_cut::<OP, L_NAME>(&b[..29]);
+    let c25 = read_rr_cut(op, L_NAME, &b[..25]);
+    let c27 = read_rr_cut(op, L_NAME, &b[..27]);
+    let c28 = read_rr_cut(op, L_NAME, &b[..28]);
+    let c29 = read_rr_cut(op, L_NAME, &b[..29]);
     l0.late_err
         && l1.late_err
         && l2.late_err
@@ -1021,7 +1025,7 @@ fn ns_all<const OP: u8>() -> bool {
 #[kani::unwind(7)]
 #[kani::stub(arrayvec::ArrayVec::try_extend_from_slice, try_extend_model)]
 fn c15_read_rr_ns_sk() {
-    let all = ns_all::<READ>();
+    let all = ns_all(READ);
     kani::cover!(all, "RDLENGTH shorter or longer than the compressed NSDNAME, or past the end, or RDATA cut short: refused; exact: read, at the end of the message too");
 }
 
@@ -1032,7 +1036,7 @@ fn c15_read_rr_ns_sk() {
 #[kani::unwind(7)]
 #[kani::stub(arrayvec::ArrayVec::try_extend_from_slice, try_extend_model)]
 fn c15_peek_owner_parse_ns_sk() {
-    let all = ns_all::<PEEK_OWNER_PARSE>();
+    let all = ns_all(PEEK_OWNER_PARSE);
     kani::cover!(all, "RDLENGTH shorter or longer than the compressed NSDNAME, or past the end, or RDATA cut short: refused; exact: parsed, at the end of the message too");
 }
 
@@ -1051,21 +1055,21 @@ macro_rules! mx_msg {
     };
 }
 
-fn mx_all<const OP: u8>() -> bool {
+fn mx_all(op: u8) -> bool {
     let h: [u8; 12] = kani::any();
     let d: [u8; 11] = kani::any();
-    let l0 = read_rr_cut::<OP, L_MX>(&mx_msg!(h, d, 0));
-    let l1 = read_rr_cut::<OP, L_MX>(&mx_msg!(h, d, 1));
-    let l2 = read_rr_cut::<OP, L_MX>(&mx_msg!(h, d, 2));
-    let l3 = read_rr_cut::<OP, L_MX>(&mx_msg!(h, d, 3));
-    let l5 = read_rr_cut::<OP, L_MX>(&mx_msg!(h, d, 5));
-    let l6 = read_rr_cut::<OP, L_MX>(&mx_msg!(h, d, 6));
-    let l7 = read_rr_cut::<OP, L_MX>(&mx_msg!(h, d, 7));
-    let l8 = read_rr_cut::<OP, L_MX>(&mx_msg!(h, d, 8));
+    let l0 = read_rr_cut(op, L_MX, &mx_msg!(h, d, 0));
+    let l1 = read_rr_cut(op, L_MX, &mx_msg!(h, d, 1));
+    let l2 = read_rr_cut(op, L_MX, &mx_msg!(h, d, 2));
+    let l3 = read_rr_cut(op, L_MX, &mx_msg!(h, d, 3));
+    let l5 = read_rr_cut(op, L_MX, &mx_msg!(h, d, 5));
+    let l6 = read_rr_cut(op, L_MX, &mx_msg!(h, d, 6));
+    let l7 = read_rr_cut(op, L_MX, &mx_msg!(h, d, 7));
+    let l8 = read_rr_cut(op, L_MX, &mx_msg!(h, d, 8));
     let b = mx_msg!(h, d, 6);
-    let c27 = read_rr_cut::<OP, L_MX>(&b[..27]);
-    let c30 = read_rr_cut::<OP, L_MX>(&b[..30]);
-    let c31 = read_rr_cut::<OP, L_MX>(&b[..31]);
+    let c27 = read_rr_cut(op, L_MX, &b[..27]);
+    let c30 = read_rr_cut(op, L_MX, &b[..30]);
+    let c31 = read_rr_cut(op, L_MX, &b[..31]);
     l0.late_err
         && l1.late_err
         && l2.late_err
@@ -1090,7 +1094,7 @@ fn mx_all<const OP: u8>() -> bool {
 #[kani::unwind(9)]
 #[kani::stub(arrayvec::ArrayVec::try_extend_from_slice, try_extend_model)]
 fn c15_read_rr_mx_sk() {
-    let all = mx_all::<READ>();
+    let all = mx_all(READ);
     kani::cover!(all, "RDLENGTH below 2, ending where the exchange starts, shorter or longer than preference + exchange, past the end: refused; exact, TTL bit 31 set: read");
 }
 
@@ -1101,7 +1105,7 @@ fn c15_read_rr_mx_sk() {
 #[kani::unwind(9)]
 #[kani::stub(arrayvec::ArrayVec::try_extend_from_slice, try_extend_model)]
 fn c15_peek_parse_mx_sk() {
-    let all = mx_all::<PEEK_PARSE>();
+    let all = mx_all(PEEK_PARSE);
     kani::cover!(all, "RDLENGTH below 2, ending where the exchange starts, shorter or longer than preference + exchange, past the end: refused; exact, TTL bit 31 set: parsed");
 }
 
@@ -1129,19 +1133,19 @@ fn c15_read_rr_a_sk() {
     let d: [u8; 9] = kani::any();
     // class IN: exactly four octets
     let bi = a_msg!(h, d, 1, d[7], d[8]);
-    let i26 = read_rr_cut::<READ, L_A>(&bi[..26]);
-    let i27 = read_rr_cut::<READ, L_A>(&bi[..27]);
+    let i26 = read_rr_cut(READ, L_A, &bi[..26]);
+    let i27 = read_rr_cut(READ, L_A, &bi[..27]);
     // class 2 (nothing known about A there): opaque
     let bo = a_msg!(h, d, 2, d[7], d[8]);
-    let o26 = read_rr_cut::<READ, L_A>(&bo[..26]);
-    let o27 = read_rr_cut::<READ, L_A>(&bo[..27]);
+    let o26 = read_rr_cut(READ, L_A, &bo[..26]);
+    let o27 = read_rr_cut(READ, L_A, &bo[..27]);
     // class CH: a name, then 16 bits
-    let c2 = read_rr_cut::<READ, L_A>(&a_msg!(h, d, 3, 0, 2));
-    let c3 = read_rr_cut::<READ, L_A>(&a_msg!(h, d, 3, 0, 3));
-    let c4 = read_rr_cut::<READ, L_A>(&a_msg!(h, d, 3, 0, 4));
+    let c2 = read_rr_cut(READ, L_A, &a_msg!(h, d, 3, 0, 2));
+    let c3 = read_rr_cut(READ, L_A, &a_msg!(h, d, 3, 0, 3));
+    let c4 = read_rr_cut(READ, L_A, &a_msg!(h, d, 3, 0, 4));
     let bc = a_msg!(h, d, 3, 0, 3);
-    let c3_25 = read_rr_cut::<READ, L_A>(&bc[..25]);
-    let c3_26 = read_rr_cut::<READ, L_A>(&bc[..26]);
+    let c3_25 = read_rr_cut(READ, L_A, &bc[..25]);
+    let c3_26 = read_rr_cut(READ, L_A, &bc[..26]);
     kani::cover!(
         i26.late_err && i27.ok && i27.to_eom && o26.late_err && o27.ok && o27.to_eom && c2.late_err && c3.ok && c4.late_err
             && c3_25.late_err && c3_26.ok && c3_26.to_eom,
@@ -1158,9 +1162,17 @@ fn c15_read_rr_a_sk() {
 // read position.  Small on purpose: this is the cheapest harness that sees a
 // read position that was advanced before Rdata::read had its say.
 
-// @harness props=C15 panics=C15,C01 kani="--no-assertion-reach-checks" tier=quick mem=3 t=600 fn="Reader::read_rr,Reader::peek_rr,PeekRr::parse,Rdata::read,Rdata::validate_as_in_a,helpers::read_name_rdata"
-//   bound="(1) 12 symbolic header octets + root owner + TYPE A, CLASS IN, symbolic TTL, RDLENGTH 3 and 5, 5 symbolic RDATA octets (28 octets); (2) zero header + root owner + TYPE NS, CLASS IN, TTL 0, RDLENGTH 3, RDATA [L,0,0] with L symbolic (all 256 values: root + junk, one label, label running off the end, pointer, reserved types) (26 octets); read_rr and peek_rr+parse on each; unwind 6"
-//   stubs="S7" sym="h:[u8;12], ttl, rdata:[u8;5], L"
+macro_rules! ns3_msg {
+    ($h:ident, $d:ident, $l:expr, $x:expr) => {
+        msg![$h; 0, 0, 2, 0, 1, $d[0], $d[1], $d[2], $d[3], 0, 3, $l, $x, 0]
+    };
+}
+
+// (Measured: with the NS label-length octet symbolic instead of the five
+// concrete values below, symbolic execution did not finish in 10 min.)
+// @harness props=C15 panics=C15,C01 kani="--no-assertion-reach-checks" tier=quick mem=3 t=900 fn="Reader::read_rr,Reader::peek_rr,PeekRr::parse,Rdata::read,Rdata::validate_as_in_a,helpers::read_name_rdata"
+//   bound="12 symbolic header octets + root owner + CLASS IN + symbolic TTL: (1) TYPE A, RDLENGTH 3 and 5, 5 symbolic RDATA octets present (28 octets); (2) TYPE NS, RDLENGTH 3, RDATA [L,x,0] with L in {0 (root + junk), 1 (valid), 2 (label runs off the end), 0x40 (reserved label type)} and x symbolic, or [0xc0,12,0] (pointer to the owner + junk) (26 octets); read_rr and peek_rr+parse on each; unwind 6"
+//   stubs="S7" sym="h:[u8;12], ttl, rdata:[u8;5] / x"
 #[kani::proof]
 #[kani::unwind(6)]
 #[kani::stub(arrayvec::ArrayVec::try_extend_from_slice, try_extend_model)]
@@ -1169,24 +1181,30 @@ fn c15_rr_bad_rdata_atomic() {
     let d: [u8; 9] = kani::any();
     let a3 = msg![h; 0, 0, 1, 0, 1, d[0], d[1], d[2], d[3], 0, 3, d[4], d[5], d[6], d[7], d[8]];
     let a5 = msg![h; 0, 0, 1, 0, 1, d[0], d[1], d[2], d[3], 0, 5, d[4], d[5], d[6], d[7], d[8]];
-    let r3 = read_rr_cut::<READ, L_A>(&a3);
-    let p3 = read_rr_cut::<PEEK_PARSE, L_A>(&a3);
-    let r5 = read_rr_cut::<READ, L_A>(&a5);
-    let p5 = read_rr_cut::<PEEK_PARSE, L_A>(&a5);
-    let l: u8 = kani::any();
-    let ns = [0, 0, 0, 0, 0, 0, 0, 0, 0, 0, 0, 0, 0, 0, 2, 0, 1, 0, 0, 0, 0, 0, 3, l, 0, 0];
-    let rn = read_rr_cut::<READ, L_NAME>(&ns);
-    let pn = read_rr_cut::<PEEK_PARSE, L_NAME>(&ns);
+    let p3 = read_rr_cut(PEEK_PARSE, L_A, &a3);
+    let r3 = read_rr_cut(READ, L_A, &a3);
+    let p5 = read_rr_cut(PEEK_PARSE, L_A, &a5);
+    let r5 = read_rr_cut(READ, L_A, &a5);
+    let pn0 = read_rr_cut(PEEK_PARSE, L_NAME, &ns3_msg!(h, d, 0, d[4]));
+    let rn0 = read_rr_cut(READ, L_NAME, &ns3_msg!(h, d, 0, d[4]));
+    let pn1 = read_rr_cut(PEEK_PARSE, L_NAME, &ns3_msg!(h, d, 1, d[4]));
+    let rn1 = read_rr_cut(READ, L_NAME, &ns3_msg!(h, d, 1, d[4]));
+    let pn2 = read_rr_cut(PEEK_PARSE, L_NAME, &ns3_msg!(h, d, 2, d[4]));
+    let rn2 = read_rr_cut(READ, L_NAME, &ns3_msg!(h, d, 2, d[4]));
+    let pn3 = read_rr_cut(PEEK_PARSE, L_NAME, &ns3_msg!(h, d, 0x40, d[4]));
+    let rn3 = read_rr_cut(READ, L_NAME, &ns3_msg!(h, d, 0x40, d[4]));
+    let pn4 = read_rr_cut(PEEK_PARSE, L_NAME, &ns3_msg!(h, d, 0xc0, 12));
+    let rn4 = read_rr_cut(READ, L_NAME, &ns3_msg!(h, d, 0xc0, 12));
     kani::cover!(
-        r3.late_err && p3.late_err && r5.late_err && p5.late_err && rn.late_err && pn.late_err && l >= 0xc0,
-        "IN A with 3 and 5 octets and NS whose RDATA is a pointer plus junk: framed, refused by read_rr and by peek_rr+parse"
+        r3.late_err && p3.late_err && r5.late_err && p5.late_err && rn0.late_err && pn0.late_err && rn1.ok && pn1.ok && pn1.to_eom
+            && rn2.late_err && pn2.late_err && rn3.late_err && pn3.late_err && rn4.late_err && pn4.late_err,
+        "IN A with 3 and 5 octets, NS with root+junk, overlong label, reserved label type, pointer+junk: framed, refused by read_rr and by peek_rr+parse; NS with one label and the root: read"
     );
-    kani::cover!(rn.ok && pn.ok && rn.to_eom, "NS whose RDATA is exactly one label and the root: read");
 }
 
 // ---- owner that passes the peek but does not decode ---------------------------------
 
-fn bad_owner<const OP: u8>() -> bool {
+fn bad_owner(op: u8) -> bool {
     let h: [u8; 12] = kani::any();
     let d: [u8; 8] = kani::any();
     // the first chunk of the owner is a well-formed pointer, which is all
@@ -1196,14 +1214,14 @@ fn bad_owner<const OP: u8>() -> bool {
         0, 10, d[0], d[1], d[2], d[3], d[4], d[5], 0, 1, // 14: TYPE NULL, CLASS, TTL, RDLENGTH 1
         d[6], // 24: RDATA
     ];
-    let o1 = read_rr_cut::<OP, L_OPAQUE>(&b1);
+    let o1 = read_rr_cut(op, L_OPAQUE, &b1);
     // a label, then a pointer to the label after it (forward)
     let b2 = msg![h;
         1, d[7], 0xc0, 16, // 12: owner
         0, 10, d[0], d[1], d[2], d[3], d[4], d[5], 0, 1, // 16
         d[6], // 26
     ];
-    let o2 = read_rr_cut::<OP, L_OPAQUE>(&b2);
+    let o2 = read_rr_cut(op, L_OPAQUE, &b2);
     !o1.ok && !o2.ok
 }
 
@@ -1214,10 +1232,10 @@ fn bad_owner<const OP: u8>() -> bool {
 #[kani::unwind(6)]
 #[kani::stub(arrayvec::ArrayVec::try_extend_from_slice, try_extend_model)]
 fn c15_rr_bad_owner_sk() {
-    let a = bad_owner::<READ>();
-    let b = bad_owner::<PEEK_PARSE>();
-    let c = bad_owner::<PEEK_OWNER>();
-    let d = bad_owner::<PEEK_OWNER_PARSE>();
+    let a = bad_owner(READ);
+    let b = bad_owner(PEEK_PARSE);
+    let c = bad_owner(PEEK_OWNER);
+    let d = bad_owner(PEEK_OWNER_PARSE);
     kani::cover!(a && b && c && d, "records whose owner passes the peek but does not decode are refused by every operation");
 }
 
@@ -1250,10 +1268,10 @@ fn c15_seq_read_all() {
     let mut r = Reader::try_from(&b[..]).unwrap();
     let q = read_question_at(&b, &mut r);
     assert!(!r.at_eom(), "[C15] at_eom is false while items remain");
-    let r1 = read_rr_at::<READ, L_NAME>(&b, &mut r);
-    let r2 = read_rr_at::<READ, L_MX>(&b, &mut r);
+    let r1 = read_rr_at(READ, L_NAME, &b, &mut r);
+    let r2 = read_rr_at(READ, L_MX, &b, &mut r);
     assert!(r.at_eom(), "[C15] at_eom is true once the read position is the message length");
-    let r3 = read_rr_at::<READ, L_OPAQUE>(&b, &mut r);
+    let r3 = read_rr_at(READ, L_OPAQUE, &b, &mut r);
     kani::cover!(
         q.ok && r1.ok && r1.name_ptr && r1.rd_ptr && r2.ok && r2.name_ptr && r2.rd_ptr && r2.to_eom && r2.ttl_hi && !r3.ok,
         "question and both records read, a further read at the end of the message refused"
@@ -1278,9 +1296,9 @@ fn c15_seq_peek_parse() {
     let before = r.message_to_cursor().len();
     assert!(r.skip_question().is_ok(), "[C15] skip_question accepts the question read_question accepted");
     assert!(r.message_to_cursor().len() == before + 7, "[C15] skip_question advances by exactly the question's length");
-    let r1 = read_rr_at::<PEEK_PARSE, L_NAME>(&b, &mut r);
-    let r2 = read_rr_at::<PEEK_OWNER_PARSE, L_MX>(&b, &mut r);
-    let r3 = skip_or_peek_at::<false, DROP>(&b, &mut r);
+    let r1 = read_rr_at(PEEK_PARSE, L_NAME, &b, &mut r);
+    let r2 = read_rr_at(PEEK_OWNER_PARSE, L_MX, &b, &mut r);
+    let r3 = skip_or_peek_at(false, DROP, &b, &mut r);
     kani::cover!(
         q.ok && r1.ok && r1.rd_ptr && r2.ok && r2.name_ptr && r2.to_eom && !r3.ok,
         "question skipped, both records parsed through peek_rr, a further skip at the end of the message refused"
@@ -1300,11 +1318,11 @@ fn c15_seq_skip_all() {
     let mut r = Reader::try_from(&b[..]).unwrap();
     assert!(r.skip_question().is_ok(), "[C15] skip_question accepts a well-formed question");
     assert!(r.message_to_cursor().len() == 19, "[C15] skip_question advances by exactly the question's length");
-    let o = read_rr_at::<PEEK_OWNER, L_NAME>(&b, &mut r);
-    let s1 = skip_or_peek_at::<false, DROP>(&b, &mut r);
-    let s2 = skip_or_peek_at::<true, SKIP>(&b, &mut r);
+    let o = read_rr_at(PEEK_OWNER, L_NAME, &b, &mut r);
+    let s1 = skip_or_peek_at(false, DROP, &b, &mut r);
+    let s2 = skip_or_peek_at(true, SKIP, &b, &mut r);
     assert!(r.at_eom(), "[C15] at_eom is true once the read position is the message length");
-    let s3 = skip_or_peek_at::<true, DROP>(&b, &mut r);
+    let s3 = skip_or_peek_at(true, DROP, &b, &mut r);
     kani::cover!(
         o.ok && o.name_ptr && s1.ok && s2.ok && s2.to_eom && !s3.ok,
         "owner peeked, both records skipped, a further peek at the end of the message refused"
@@ -1340,14 +1358,14 @@ fn c15_read_rr_soa_sk() {
     let h: [u8; 12] = kani::any();
     let d: [u8; 9] = kani::any();
     let s: [u8; 20] = kani::any();
-    let l2 = read_rr_cut::<READ, L_SOA>(&soa_msg!(h, d, s, 2));
-    let l6 = read_rr_cut::<READ, L_SOA>(&soa_msg!(h, d, s, 6));
-    let l25 = read_rr_cut::<READ, L_SOA>(&soa_msg!(h, d, s, 25));
-    let l26 = read_rr_cut::<READ, L_SOA>(&soa_msg!(h, d, s, 26));
-    let l27 = read_rr_cut::<READ, L_SOA>(&soa_msg!(h, d, s, 27));
+    let l2 = read_rr_cut(READ, L_SOA, &soa_msg!(h, d, s, 2));
+    let l6 = read_rr_cut(READ, L_SOA, &soa_msg!(h, d, s, 6));
+    let l25 = read_rr_cut(READ, L_SOA, &soa_msg!(h, d, s, 25));
+    let l26 = read_rr_cut(READ, L_SOA, &soa_msg!(h, d, s, 26));
+    let l27 = read_rr_cut(READ, L_SOA, &soa_msg!(h, d, s, 27));
     let b = soa_msg!(h, d, s, 26);
-    let c50 = read_rr_cut::<READ, L_SOA>(&b[..50]);
-    let c51 = read_rr_cut::<READ, L_SOA>(&b[..51]);
+    let c50 = read_rr_cut(READ, L_SOA, &b[..50]);
+    let c51 = read_rr_cut(READ, L_SOA, &b[..51]);
     kani::cover!(
         l2.late_err && l6.late_err && l25.late_err && l26.ok && l26.rd_ptr && !l26.to_eom && l27.late_err && c50.late_err
             && c51.ok && c51.to_eom,
